@@ -51,15 +51,36 @@ def set (b : Bits) (i : U64) : Bits :=
 
 /-- the `for remaining >= 64 { … }` loop of `clearRange`: clears whole words. -/
 def clearWords (bits : Array U64) (lengthMask pos remaining : U64) : Array U64 × U64 × U64 :=
-  if h : 64#64 ≤ remaining then
+  if _h : 64#64 ≤ remaining then
     let word := pos >>> 6
     clearWords (bits.setIfInBounds word.toNat 0#64) lengthMask ((pos + 64#64) &&& lengthMask) (remaining - 64#64)
   else (bits, pos, remaining)
 termination_by remaining.toNat
 decreasing_by
-  have := BitVec.le_def.mp h
+  have := BitVec.le_def.mp _h
   simp only [BitVec.toNat_sub, BitVec.toNat_ofNat] at *
   omega
+
+/-- `clearRange`: size of the first, possibly partial, word chunk
+(`take := 64 - bit; if take > remaining {…}; if take > b.length-pos {…}`) -/
+def firstTake (length pos remaining : U64) : U64 :=
+  let bit := pos &&& 63#64
+  let take := 64#64 - bit
+  let take := if remaining < take then remaining else take
+  if length - pos < take then length - pos else take
+
+/-- `clearRange`: `if take == 64 { mask = MaxUint64 } else { mask = ((1 << take) - 1) << bit }` -/
+def firstMask (take bit : U64) : U64 :=
+  if take == 64#64 then BitVec.allOnes 64
+  else ((1#64 <<< take.toNat) - 1#64) <<< bit.toNat
+
+/-- `clearRange`: `if remaining > 0 { word = pos >> 6; mask = (1 << remaining) - 1; bits[word] &^= mask }` -/
+def lastPartial (bits : Array U64) (pos remaining : U64) : Array U64 :=
+  if 0#64 < remaining then
+    let word := pos >>> 6
+    let mask := (1#64 <<< remaining.toNat) - 1#64
+    bits.setIfInBounds word.toNat (wordAt bits word &&& ~~~mask)
+  else bits
 
 /-- `b.clearRange(startPos, count)` (state effect only; the returned pop-count feeds metrics). -/
 def clearRange (b : Bits) (startPos count : U64) : Bits :=
@@ -67,33 +88,16 @@ def clearRange (b : Bits) (startPos count : U64) : Bits :=
     -- clear(b.bits)
     { b with bits := Array.replicate b.bits.size 0#64 }
   else
-    let pos := startPos
-    let remaining := count
     -- handle the potential partial word before pos becomes u64 aligned
-    let word := pos >>> 6
-    let bit := pos &&& 63#64
-    let take := 64#64 - bit
-    let take := if remaining < take then remaining else take
-    let take := if b.length - pos < take then b.length - pos else take
-    let mask : U64 :=
-      if take == 64#64 then BitVec.allOnes 64
-      else ((1#64 <<< take.toNat) - 1#64) <<< bit.toNat
+    let word := startPos >>> 6
+    let bit := startPos &&& 63#64
+    let take := firstTake b.length startPos count
+    let mask := firstMask take bit
     let bits := b.bits.setIfInBounds word.toNat (wordAt b.bits word &&& ~~~mask)
-    let remaining := remaining - take
-    let pos := (pos + take) &&& b.lengthMask
-    -- Clear whole words
-    let r := clearWords bits b.lengthMask pos remaining
-    let bits := r.1
-    let pos := r.2.1
-    let remaining := r.2.2
-    -- Clear the remaining partial word
-    let bits :=
-      if 0#64 < remaining then
-        let word := pos >>> 6
-        let mask := (1#64 <<< remaining.toNat) - 1#64
-        bits.setIfInBounds word.toNat (wordAt bits word &&& ~~~mask)
-      else bits
-    { b with bits := bits }
+    -- remaining -= take; pos = (pos + take) & b.lengthMask; then clear whole words
+    let r := clearWords bits b.lengthMask ((startPos + take) &&& b.lengthMask) (count - take)
+    -- clear the remaining partial word
+    { b with bits := lastPartial r.1 r.2.1 r.2.2 }
 
 /-- `b.strictlyWithinWindow(i)` — the translated source function. -/
 def strictlyWithinWindow (b : Bits) (i : U64) : Bool :=
